@@ -222,6 +222,74 @@ def retry_counters(body, main):
     return ids
 
 
+def r_guard_condition(rep, f, fn, body, main, m):
+    """the underflow exit really tests the magnitude of the step against a non-negative rounding-level threshold: its
+    condition is  c*|h| <= R  with c > 0 and R >= 0 for every sign of x and of the direction (or  x + c*|h| == x).
+    A threshold that can be negative (x * eps for x < 0) never fires and the rejected-step loop spins for ever."""
+    import limits
+    guards = [g for g in tast.find(main, lambda z: m.is_underflow_guard(z))]
+    key = "R-GUARD-UNDERFLOW:%s:condition" % fn
+    if not guards:
+        return
+    try:
+        sx, hk = rk.analyse_solve(f, fn)
+    except rk.AnalysisError as e:
+        rep.inconc("R-GUARD-UNDERFLOW", key, str(e))
+        return
+    conds = {}
+    for ev in sx.trace:
+        if ev["kind"] == "if" and any(ev["node"] is g for g in guards):
+            conds[id(ev["node"])] = ev["cond"]
+    good = 0
+    probs = []
+    defaults = interval.default_fields(f, fn)
+    # configuration fields whose builder default is a positive literal (the solvers validate them to stay positive)
+    assume = lambda at: at in defaults and defaults[at].lo > 0
+    nonneg = lambda q: limits.nonneg(q, assume=assume)
+    for g in guards:
+        cv = conds.get(id(g))
+        a = cv.single_atom() if isinstance(cv, Poly) else None
+        d = DEFS.get(a) if a else None
+        if not d or len(d[1]) != 2 or not all(isinstance(x, Poly) for x in d[1]):
+            probs.append(("inconc", "condition `%s` of the underflow exit is not a comparison the analysis understands" % tast.render(g["cond"])[:80], g))
+            continue
+        op, (L, R) = d[0], d[1]
+        if op in ("ge", "gt"):
+            L, R = R, L
+            op = {"ge": "le", "gt": "lt"}[op]
+
+        def is_step_magnitude(p):
+            # positive multiple of |h| (abs[..] of the step variable) or of a magnitude-valued step variable
+            if len(p.t) != 1:
+                return False
+            (mono, c), = p.t.items()
+            return c > 0 and nonneg(Poly({mono: 1})) and bool(mono)
+        if op in ("le", "lt"):
+            if not is_step_magnitude(L):
+                probs.append(("viol", "the tested quantity %r is not a positive multiple of the step magnitude |h|" % (L,), g))
+            elif not nonneg(R):
+                probs.append(("viol", "the threshold %r can be negative (it is not a magnitude): for x < 0 the test `%s` never fires, rejected steps can shrink h to zero and the loop never exits"
+                              % (R, tast.render(g["cond"])[:70]), g))
+            else:
+                good += 1
+        elif op == "eq":
+            diff = L - R
+            if is_step_magnitude(diff) or is_step_magnitude(-diff):
+                good += 1
+            else:
+                probs.append(("viol", "`%s` does not test whether the step is absorbed by x" % tast.render(g["cond"])[:70], g))
+        else:
+            probs.append(("inconc", "condition `%s` of the underflow exit is not an ordering test" % tast.render(g["cond"])[:80], g))
+    for kind, msg, g in probs:
+        if kind == "viol":
+            rep.violation("R-GUARD-UNDERFLOW", key, msg[:500], g.get("sp"))
+            return
+    if probs and not good:
+        rep.inconc("R-GUARD-UNDERFLOW", key, probs[0][1], probs[0][2].get("sp"))
+    elif good:
+        rep.ok("R-GUARD-UNDERFLOW", key, "%d underflow test(s) compare a positive multiple of |h| with a non-negative threshold" % good)
+
+
 def r_guards(rep, f, include_rk4=False):
     for mod, ty in (SOLVERS if include_rk4 else CONTROLLED):
         fn = solve_fn(mod, ty)
@@ -242,6 +310,8 @@ def r_guards(rep, f, include_rk4=False):
             rep.violation(rule, key, msg, node.get("sp") if isinstance(node, dict) else None)
         if "R-GUARD-UNDERFLOW" not in seen_rules and mod != "rk4":
             rep.ok("R-GUARD-UNDERFLOW", "R-GUARD-UNDERFLOW:%s" % fn, "every cycle passes an underflow exit or a bounded retry counter (%d counter(s))" % len(rc))
+        if mod != "rk4":
+            r_guard_condition(rep, f, fn, body, main, m)
         if "R-BUDGET" not in seen_rules:
             rep.ok("R-BUDGET", "R-BUDGET:%s" % fn, "every cycle increments Steps::total or a bounded retry counter")
         # the budget test itself: Steps::total compared with the local read from max_steps; true edge -> NeedLargerNMax and exit
